@@ -1074,7 +1074,13 @@ func (e *Engine) exec(st *State, fr *Frame, in ssa.Instruction) bool {
 		case token.XOR:
 			fr.env[in] = BvNot(x.(*Term))
 		case token.MUL:
-			fr.env[in] = e.loadPtr(st, x.(PtrVal))
+			v := e.loadPtr(st, x.(PtrVal))
+			if b, ok := in.Type().Underlying().(*types.Basic); ok && b.Info()&types.IsString != 0 {
+				if _, isSlice := v.(SliceVal); isSlice {
+					abort("unsupported", "unsafe reinterpretation of a []byte as a string (memory shared between a string and a slice is not modelled)")
+				}
+			}
+			fr.env[in] = v
 		case token.ARROW:
 			ch := x.(PtrVal)
 			if ch.obj == 0 {
